@@ -278,6 +278,7 @@ def run_state(spec, tier, seed, res):
         before = cheap_state()
         res.evaluations += 1
         outcome, writes = watch.observe(f)
+        res.count("calls_watched_for_temporary_writes_to_warnings_filters")
         after = cheap_state()
         res.count("outcome:" + outcome)
         if writes:
